@@ -10,6 +10,8 @@
                      writer of pmd / pdl has the form sqrt(old^2 + x^2) with x independent of the spectrum; the writers
                      are exactly Fiber/RamanFiber (CD, PMD, latency), Roadm (PMD, PDL), Edfa (PMD, PDL);
                      Fiber.pmd = pmd_coef * sqrt(L); FiberParams latency = L / (c / n1), a function of length only.
+ R4 dispersion     : Fiber.chromatic_dispersion is proportional to the length; composed with beta2 at the reference
+                     frequency it gives back D(f_ref) * L for the three ways D is specified; freq=None = f_ref.
 """
 import ast
 
@@ -242,4 +244,66 @@ def r3_accumulators(ctx):
     ctx.need('R3.fibre', 4)
 
 
-RULES = [('R1.once', r1_once), ('R2.budget', r2_budget), ('R3.accumulators', r3_accumulators)]
+def fld(p):
+    return Rat.of(mk_atom('fld', p))
+
+
+def r4_cd(ctx):
+    """R4: the dispersion a span adds is proportional to its length (so CD adds linearly over spans and does not depend
+    on how a route is cut into spans), and beta2 / chromatic_dispersion are inverse conversions: composed at the
+    reference frequency they give back D(f_ref) * L for each way D is specified (per-frequency table, scalar scaled
+    with f^2, scalar + slope); freq=None means the reference frequency."""
+    from ..poly import restrict, gamma_conds
+    repo = ctx.repo
+    F = repo.cls('Fiber', EL)
+    cd = repo.method(F, 'chromatic_dispersion')
+    b2 = repo.method(F, 'beta2')
+    f = Rat.sym('f#freq')
+    ev = Evaluator(repo, cd, types={'self': F}, no_inline={'beta2', 'beta3'}).run_function(bind={cd.params[1]: f})
+    r = ev.ret()
+    none_c = [c for c in gamma_conds(r) if c.startswith('isnone(')]
+    if len(none_c) != 1 or not isinstance(r, Rat):
+        raise CannotAnalyse(f'chromatic_dispersion: unforeseen shape {sorted(gamma_conds(r))}')
+    s = site(cd)
+    rf = restrict(r, {none_c[0]: False})
+    L, ref = fld('self.params.length'), fld('self.params.ref_frequency')
+    per_m = rf / L
+    ctx.check('R4.cd', f'{s} proportional to length', 'self.params.length' not in {a.name for a in atoms_of(per_m).values()} and not rf.is_zero(),
+              key(cd, 'length'), 'the dispersion of a span is not (a function of frequency) x length: CD would not add linearly over spans',
+              vkey(rf)[:200])
+    at_ref = subst(rf, lambda a: ref if a.kind == 'sym' and a.name == 'f#freq' else None)
+    ctx.check('R4.cd', f'{s} default frequency', restrict(r, {none_c[0]: True}).eq(at_ref), key(cd, 'default'),
+              'freq=None is not the reference frequency')
+    e2 = Evaluator(repo, b2, types={'self': F}, no_inline={'interpolate_parameter_over_spectrum'}).run_function(bind={b2.params[1]: f})
+    v2 = e2.ret()
+    n2 = [c for c in gamma_conds(v2) if c.startswith('isnone(') and 'f#freq' in c]
+    if len(n2) != 1:
+        raise CannotAnalyse('beta2: unforeseen shape')
+    v2 = subst(restrict(v2, {n2[0]: False}), lambda a: ref if a.kind == 'sym' and a.name == 'f#freq' else None)
+    calls = [a for a in atoms_of(at_ref).values() if a.kind == 'fn' and a.name.startswith('call:')]
+    ok = len(calls) == 1 and calls[0].name.endswith('.beta2')
+    ctx.check('R4.cd', f'{s} third-order term vanishes at the reference', ok, key(cd, 'beta3-ref'),
+              'at the reference frequency the accumulated dispersion does not reduce to its beta2 term', vkey(at_ref)[:200])
+    if ok:
+        comp = subst(at_ref, lambda a: v2 if a is calls[0] or a.key == calls[0].key else None)
+        conds = gamma_conds(comp)
+        tab = [c for c in conds if 'dispersion.size' in c]
+        slope = [c for c in conds if 'dispersion_slope' in c]
+        if len(tab) != 1 or len(slope) != 1:
+            raise CannotAnalyse(f'beta2: unforeseen arms {sorted(conds)}')
+        D, S, fd = fld('self.params.dispersion'), fld('self.params.dispersion_slope'), fld('self.params.f_dispersion_ref')
+        cc = Rat.sym('c')
+        arm_t = restrict(comp, {tab[0]: True})
+        ia = [a for a in atoms_of(arm_t).values() if a.kind == 'fn' and a.name.endswith('interpolate_parameter_over_spectrum')]
+        ctx.check('R4.cd', f'{site(b2)} table', len(ia) == 1 and arm_t.eq(Rat.of(ia[0]) * L) and ia[0].args[1].eq(D) and ia[0].args[3].eq(ref),
+                  key(b2, 'arm|table'), 'with a per-frequency dispersion table, CD(f_ref) is not interpolated D(f_ref) x length', vkey(arm_t)[:200])
+        ctx.check('R4.cd', f'{site(b2)} scalar', restrict(comp, {tab[0]: False, slope[0]: True}).eq(D * ref * ref / (fd * fd) * L),
+                  key(b2, 'arm|scalar'), 'with a scalar dispersion, CD(f_ref) is not D x (f_ref / f_D)^2 x length: beta2 and chromatic_dispersion '
+                  'are not inverse conversions', vkey(restrict(comp, {tab[0]: False, slope[0]: True}))[:200])
+        ctx.check('R4.cd', f'{site(b2)} slope', restrict(comp, {tab[0]: False, slope[0]: False}).eq((D + S * (cc / ref - cc / fd)) * L),
+                  key(b2, 'arm|slope'), 'with a dispersion slope, CD(f_ref) is not (D + S (lambda_ref - lambda_D)) x length',
+                  vkey(restrict(comp, {tab[0]: False, slope[0]: False}))[:200])
+    ctx.need('R4.cd', 6)
+
+
+RULES = [('R4.cd', r4_cd), ('R1.once', r1_once), ('R2.budget', r2_budget), ('R3.accumulators', r3_accumulators)]
